@@ -18,15 +18,15 @@ CONFIG = {
                   "The model is tied to the real engine differentially (LightDataset and FastDataset, queries parsed by the real spargebra, "
                   "0 disagreements required). Sub-selects, BIND or nested GRAPH ?y inside GRAPH ?g, and the value-level expression operators "
                   "(=, <, >, <=, >=, + - * unary, IN, IF, COALESCE, STR, LANG, DATATYPE), FILTER [NOT] EXISTS and programmatic FROM (named: None) are "
-                  "covered by the differential against the executable specification only; eight deviations there are known findings, seven with "
-                  "kernel-checked witnesses (two more were repaired in /repo: e4da433, d984918; their inputs stay in corpus/C13).",
+                  "covered by the differential against the executable specification only; five deviations there are known findings with "
+                  "kernel-checked witnesses (five more were repaired in /repo: e4da433, d984918, 417c435, 8d7de80, f106847; their inputs stay in corpus/C13).",
     "level_note": "Trusted: the transcription of SPARQL 1.1 sections 17/18 (SparqlSpec.lean); the hand-written implementation model "
                   "(Sparql.lean) up to the differential; spargebra; the in-memory store as a quad set (C01). eval_correct is _partial: it "
                   "excludes sub-selects, restricts what may stand inside GRAPH ?g, and assumes ExprOK (proved for BOUND/sameTerm/isIRI/isBlank/isLiteral closed under !, ||, &&); "
                   "the unrestricted statement is refuted (evalCorrectFull_refuted). Row order is not modelled (OFFSET/LIMIT: size + containment).",
     "tables": ["sparql_dispatch"],
     "lean_targets": ["SophiaProofs.Props.C13", "SophiaProofs.Audit.C13"],
-    "theorems": ['bgp_correct', 'bgp_multiset', 'single_graph_nodup', 'body_correct', 'graph_var_correct', 'ask_graph_var_correct', 'eval_correct_partial', 'ask_correct', 'slice_sound', 'dispatch_total', 'unsupported_err', 'fragment_refused', 'dispatch_model', 'query_dispatch', 'refusal_both', 'gen_flags', 'no_panic', 'exprOK_termlevel', 'or_and_tables', 'evalD_none', 'evalCorrectFull_refuted', 'dev_graph_prebind', 'dev_proj_leak', 'dev_ebv_illtyped', 'dev_in_strict', 'dev_if_ebv', 'dev_exists_swallow', 'dev_from_unmerged', 'fixed_empty_named', 'fixed_or_strict'],
+    "theorems": ['bgp_correct', 'bgp_multiset', 'single_graph_nodup', 'body_correct', 'graph_var_correct', 'ask_graph_var_correct', 'eval_correct_partial', 'ask_correct', 'slice_sound', 'dispatch_total', 'unsupported_err', 'fragment_refused', 'dispatch_model', 'query_dispatch', 'refusal_both', 'exists_refused', 'gen_flags', 'no_panic', 'exprOK_termlevel', 'or_and_tables', 'evalD_none', 'evalCorrectFull_refuted', 'dev_graph_prebind', 'dev_proj_leak', 'dev_ebv_illtyped', 'dev_in_strict', 'dev_from_unmerged', 'fixed_empty_named', 'fixed_or_strict', 'fixed_if_ebv', 'fixed_neg_min', 'fixed_exists_swallow'],
     "native_ok": [],
     "trivial_re": r"^skip|errclass=notimpl|rows=0/|^errclass=none ask=0",
     "rule": "per run: ~100 fixed SPARQL texts (every unsupported operator: OPTIONAL, MINUS, VALUES, aggregates/GROUP BY/HAVING, paths, "
@@ -102,18 +102,6 @@ def c13_in_strict(failure):
 
 
 @predicate
-def c13_if_ebv_false(failure):
-    """IF(c, t, e): an error of the effective boolean value of c selects e instead of raising an error"""
-    return _c13_dev(failure, "ifEbvFalse")
-
-
-@predicate
-def c13_exists_swallow(failure):
-    """an operator the engine refuses, inside FILTER [NOT] EXISTS, is answered as 'no solution'"""
-    return _c13_dev(failure, "existsSwallow")
-
-
-@predicate
 def c13_from_default(failure):
     """QueryDataset { default: [..], named: None } (programmatic only): FROM graphs are not merged and
     GRAPH ?g still ranges over the store's named graphs"""
@@ -123,22 +111,6 @@ def c13_from_default(failure):
     if any(k.startswith("FAIL.") or k == "panic" for k in I) or I.get("errclass") != "none":
         return False
     return all(not (k in I and I[k] != v) for k, v in M.items() if not k.startswith(("o.", "k.")))
-
-
-_NEG_PANIC = "attempt to negate with overflow".encode().hex()
-
-
-@predicate
-def c13_neg_overflow_panic(failure):
-    """unary minus on NativeInt(isize::MIN) panics (debug) / wraps (release)"""
-    if failure.get("field") != "panic" or kv(failure["impl"]).get("panic") != _NEG_PANIC:
-        return False
-    req = failure["request"]
-    if req.startswith("raw "):
-        # the smallest native integer occurs in the data or in the query text, and the text negates
-        text = unhex(req.split()[-1])
-        return "-9223372036854775808".encode().hex() in req and "-" in text
-    return kv(failure["model"]).get("k.negmin") == "1"
 
 
 def _c13_search_requests(lines):
